@@ -92,7 +92,7 @@ func runLifetime(c C13Case, ev *Evid) (fs []Finding) {
 	var err error
 	expectFail := true
 	switch c.Mode {
-	case "healthy-open", "healthy-open-spawn":
+	case "healthy-open", "healthy-open-spawn", "healthy-open-unprivileged", "healthy-open-double-close":
 		os.WriteFile(path, valid, 0644)
 		db, err = openWT(path)
 		expectFail = false
@@ -198,6 +198,72 @@ func runLifetime(c C13Case, ev *Evid) (fs []Finding) {
 	if perr != nil || free {
 		db.Close()
 		add("not-locked", "a non-blocking exclusive flock succeeds while a default-option handle is open (err %v): the file is not exclusively locked", perr)
+		return
+	}
+	if c.Mode == "healthy-open-unprivileged" {
+		// an opener that may read but not write the file (the checks run as root: the effective uid is switched to
+		// "nobody" around the attempt) must not obtain a handle while the first one is open either; being
+		// refused outright is fine
+		os.Chmod(filepath.Dir(path), 0755)
+		os.Chmod(path, 0444)
+		if e := syscall.Seteuid(65534); e != nil {
+			db.Close()
+			ev.Count(HashJSON(c), false, "mode="+c.Mode, "cannot-drop-privileges")
+			return
+		}
+		gotHandle := int32(0)
+		done := make(chan struct{})
+		go func() {
+			d, e := openWT(path)
+			if e == nil {
+				atomic.StoreInt32(&gotHandle, 1)
+				d.Close()
+			}
+			close(done)
+		}()
+		hold := time.Duration(5+c.Cut%20) * time.Millisecond
+		time.Sleep(hold)
+		early := atomic.LoadInt32(&gotHandle) == 1
+		syscall.Seteuid(0)
+		db.Close()
+		select {
+		case <-done:
+		case <-time.After(5 * time.Second):
+			add("second-open-stuck", "an unprivileged Open did not return within 5 s after the first handle was closed")
+			return
+		}
+		if early {
+			add("second-open-early", "mode=%s: an Open by a user who may only read the file returned a handle while the first handle was still open (held for %v)", c.Mode, hold)
+			return
+		}
+		ev.Count(HashJSON(c), true, "mode="+c.Mode)
+		return
+	}
+	if c.Mode == "healthy-open-double-close" {
+		// Close twice (defer + explicit Close is common): the second Close must not touch another handle that
+		// meanwhile got the same descriptor number. X is closed, Y opened (lowest free descriptor), X closed
+		// again; Y's file must still be locked
+		other := filepath.Join(dir, "other.wsp")
+		os.WriteFile(other, valid, 0644)
+		db.Close()
+		y, yerr := openWT(other)
+		if yerr != nil {
+			add("healthy-fails", "%v", yerr)
+			return
+		}
+		guard(func() { db.Close() })
+		free, perr := probeLock(other)
+		if perr != nil || free {
+			y.Close()
+			add("lock-dropped-by-second-close", "closing an already closed handle again released the lock of ANOTHER open handle (probe err %v): its file is no longer exclusively locked", perr)
+			return
+		}
+		y.Close()
+		if free, _ := probeLock(other); !free {
+			add("lock-leak", "the file is still locked after Close")
+			return
+		}
+		ev.Count(HashJSON(c), true, "mode="+c.Mode)
 		return
 	}
 	if c.Mode == "healthy-open-spawn" {
@@ -502,7 +568,7 @@ func runC13(c C13Case, ev *Evid) []Finding {
 func genC13(t *rapid.T) C13Case {
 	if rapid.IntRange(0, 9).Draw(t, "kind") < 8 {
 		c := C13Case{Kind: "lifetime"}
-		c.Mode = rapid.SampledFrom([]string{"healthy-open", "healthy-create", "open-empty", "open-truncated", "open-truncated", "open-corrupt", "open-corrupt", "open-short-body", "create-readonly-flag", "create-exists"}).Draw(t, "mode")
+		c.Mode = rapid.SampledFrom([]string{"healthy-open", "healthy-create", "healthy-open-unprivileged", "healthy-open-double-close", "open-empty", "open-truncated", "open-truncated", "open-corrupt", "open-corrupt", "open-short-body", "create-readonly-flag", "create-exists"}).Draw(t, "mode")
 		switch c.Mode {
 		case "open-truncated":
 			c.Cut = rapid.IntRange(1, 27).Draw(t, "cut")
